@@ -2421,3 +2421,94 @@ def c15_pwait_search(meta, seed, budget):
         for tmode in ("none", "some"):
             yield {"cached": cached, "tmode": tmode, "timeout": 0.25}
     yield {"cached": "False", "tmode": "some", "timeout": -1.0}
+
+
+# ---------------------------------------------------------------------------
+# C12: Process.exe() fallback;  C02: __hash__
+# ---------------------------------------------------------------------------
+
+@runner("c12:exe_front")
+def c12_exe_front(model, meta):
+    import psutil
+    cfgs = cfg_of(meta)
+    how = model.get("how", cfgs.get("native", "empty"))
+    cl = model.get("cl", cfgs.get("cmdline", "args"))
+    arg0 = model.get("arg0") or "/opt/some dir"
+    if isinstance(arg0, str) and "\\" in arg0:
+        arg0 = unlat(arg0).decode("latin-1")
+    native = model.get("native_exe") or "/usr/bin/real"
+    isabs = bool(model.get("arg0_isabs", True))
+    isfile = bool(model.get("arg0_isfile", False))
+    xok = bool(model.get("arg0_executable", True))
+    p = psutil.Process()
+    p._exe = None
+    log = []
+
+    def p_exe(self_):
+        log.append("proc.exe")
+        if how == "denied":
+            raise psutil.AccessDenied(p.pid)
+        return native if how == "path" else ""
+
+    def p_cmdline(self_):
+        log.append("proc.cmdline")
+        if cl == "denied":
+            raise psutil.AccessDenied(p.pid)
+        return [] if cl == "empty" else [arg0, "--flag"]
+
+    with mock.patch.object(type(p._proc), "exe", p_exe), mock.patch.object(type(p._proc), "cmdline", p_cmdline), \
+            mock.patch.object(os.path, "isabs", lambda x: isabs), mock.patch.object(os.path, "isfile", lambda x: isfile), \
+            mock.patch.object(os, "access", lambda x, mode: (xok if mode == os.X_OK else True)):
+        try:
+            res, exc = p.exe(), None
+        except Exception as e:  # noqa: BLE001
+            res, exc = None, e
+    good = cl == "args" and isabs and isfile and xok
+    if how == "path":
+        want = ("ret", native)
+    elif good:
+        want = ("ret", arg0)
+    elif how == "empty":
+        want = ("ret", "")
+    else:
+        want = ("exc", "AccessDenied")
+    got = ("ret", res) if exc is None else ("exc", type(exc).__name__)
+    return {"env": {}, "result": got, "expected": want, "exc": None, "verdict": got != want,
+            "tag": f"exe(): native={how}, cmdline={cl}, isabs={isabs}, isfile={isfile}, executable={xok}: {got}, expected {want}"
+            if got != want else None}
+
+
+@search("c12:exe_front")
+def c12_exe_front_search(meta, seed, budget):
+    import itertools
+    for how in ("path", "empty", "denied"):
+        for cl in ("args", "empty", "denied"):
+            for a, f, x in itertools.product((True, False), repeat=3):
+                yield {"how": how, "cl": cl, "arg0_isabs": a, "arg0_isfile": f, "arg0_executable": x}
+
+
+@runner("c02:hash")
+def c02_hash(model, meta):
+    import psutil
+    cfgs = cfg_of(meta)
+    p = psutil.Process()
+    pid = int(model.get("pid", p.pid))
+    born = float(num(model.get("born", 12.5)))
+    p._pid = pid
+    p._ident = (pid, born)
+    p._hash = None
+    ct = cfgs.get("ct", model.get("ct", "cached"))
+    p._create_time = float(num(model.get("cached_epoch_create_time", 1700000000.25))) if ct == "cached" else None
+    if str(cfgs.get("memo", model.get("memo", False))) == "True":
+        p._hash = hash(p._ident)
+    h = hash(p)
+    bad = h != hash((pid, born)) or p._hash != h
+    return {"env": {}, "result": h, "expected": hash((pid, born)), "exc": None, "verdict": bad,
+            "tag": "hash(Process) is not hash of its identity (pid, start since boot)" if bad else None}
+
+
+@search("c02:hash")
+def c02_hash_search(meta, seed, budget):
+    for ct in ("cached", "none"):
+        for memo in (False, True):
+            yield {"ct": ct, "memo": memo, "pid": 4242, "born": 77.5}
